@@ -28,11 +28,12 @@ func c01Note(c *Ctx, res *Resolved) {
 	flag(res.HasMissing, "shape:missing_directory")
 	flag(res.HasInvalid, "shape:invalid_file")
 	flag(res.HasIgnored, "shape:ignored_entries")
+	flag(res.HasSpecial, "shape:fifo_or_link_to_directory_entry")
 	flag(res.HasInvalid && res.HasShadow, "shape:invalid_file_with_shadowing")
 }
 
 func checkC01(c *Ctx) {
-	c.Rule = "seeded populations of 1-4 configured directories (missing, repeated, non-clean spellings) with valid/invalid/non-Spec/nested files over a small pool of kinds and device names (so that definitions collide), each followed by 1-4 change steps with a refresh after each; manual mode and auto-refresh mode (logical quiescence via sentinel + watch.event hook, then Refresh); distinct_nontrivial = distinct population shapes (per device: directory index -> number of defining files, plus presence of invalid/ignored/repeated/missing entries) seen at a comparison point"
+	c.Rule = "seeded populations of 1-4 configured directories (missing, repeated, non-clean spellings) with valid/invalid/non-Spec/nested files and non-regular entries (FIFO, symbolic link to a directory) over a small pool of kinds and device names (so that definitions collide), each followed by 1-4 change steps with a refresh after each; manual mode and auto-refresh mode (logical quiescence via sentinel + watch.event hook, then Refresh); distinct_nontrivial = distinct population shapes (per device: directory index -> number of defining files, plus presence of invalid/ignored/repeated/missing entries) seen at a comparison point"
 	c.Assume("M-RESOLVE (gen_dirs.go) transcribes the statement of C01", "populations are bounded: <=4 directories, <=5 Spec files per directory, <=3 devices per file", "symlinked directories are outside the generator")
 	nManual := c.pick(2500, 40000)
 	nAuto := c.pick(250, 4000)
@@ -127,7 +128,7 @@ func checkC01(c *Ctx) {
 		}
 		c.Sample(5, map[string]any{"mode": "auto", "history": history, "watcher_events": ev})
 	})
-	for _, k := range []string{"shape:shadowing", "shape:conflict_at_top", "shape:conflict_below_higher_definition", "shape:repeated_directory", "shape:missing_directory", "shape:invalid_file_with_shadowing"} {
+	for _, k := range []string{"shape:shadowing", "shape:conflict_at_top", "shape:conflict_below_higher_definition", "shape:repeated_directory", "shape:missing_directory", "shape:invalid_file_with_shadowing", "shape:fifo_or_link_to_directory_entry"} {
 		c.Floor(k, 5)
 	}
 	c.Floor("comparisons_auto", 20)
